@@ -69,6 +69,10 @@ func (p *vfC22Provider) GenerateUploadURL(schema *arrow.Schema) (UploadURL, erro
 type vfC22Kind struct {
 	name string
 	mk   func() error // nil => accept (control)
+	// withCtx: the authenticator returns a NON-NIL *AuthContext together with
+	// its error (e.g. a validate callback that builds the identity and then
+	// refuses it). The error decides; the context must be ignored.
+	withCtx bool
 }
 
 func vfC22Kinds() []vfC22Kind {
@@ -80,6 +84,18 @@ func vfC22Kinds() []vfC22Kind {
 		{name: "failure-proxy_required", mk: func() error { return NewAuthFailure(AuthReasonProxyRequired, "") }},
 		{name: "unavailable", mk: func() error { return &AuthUnavailableError{Detail: "idp down", RetryAfter: 3} }},
 		{name: "plain-error", mk: func() error { return errors.New("backend exploded") }},
+	}
+	// (context, error) variants
+	base := append([]vfC22Kind{}, ks[1:]...)
+	for _, k := range base {
+		switch k.name {
+		case "rpc-PermissionError", "unavailable", "plain-error":
+		default:
+			if !venum.Thorough() {
+				continue
+			}
+		}
+		ks = append(ks, vfC22Kind{name: k.name + "+ctx", mk: k.mk, withCtx: true})
 	}
 	if venum.Thorough() {
 		for _, r := range []AuthReason{AuthReasonInvalidCredential, AuthReasonExpiredCredential, AuthReasonInsufficientScope, AuthReasonUnauthorized, ""} {
@@ -201,6 +217,11 @@ func vfC22Build(x *venum.X, mask, proof int, prefix string, kind vfC22Kind) (*vf
 	} else {
 		e.setupID = Anonymous()
 	}
+	if kind.withCtx {
+		// tokens / sessions minted in the setup phase belong to the very
+		// identity the rejecting authenticator hands back with its error
+		e.setupID = &AuthContext{Domain: "vf", Authenticated: true, Principal: "intro"}
+	}
 	var auth AuthenticateFunc = func(r *http.Request) (*AuthContext, error) {
 		c.authCalls++
 		// Space 2 (histories): the caller is decided per request from a header.
@@ -212,6 +233,9 @@ func vfC22Build(x *venum.X, mask, proof int, prefix string, kind vfC22Kind) (*vf
 		}
 		if e.phase == "setup" || e.kind.mk == nil {
 			return e.setupID, nil
+		}
+		if e.kind.withCtx {
+			return &AuthContext{Domain: "vf", Authenticated: true, Principal: "intro"}, e.kind.mk()
 		}
 		return nil, e.kind.mk()
 	}
@@ -660,7 +684,7 @@ func TestVerif_C22(t *testing.T) {
 	var histKinds []vfC22Kind
 	for _, k := range kinds {
 		switch k.name {
-		case "rpc-ValueError", "unavailable", "plain-error":
+		case "rpc-ValueError", "unavailable", "plain-error", "rpc-PermissionError+ctx":
 			histKinds = append(histKinds, k)
 		case "rpc-PermissionError", "failure-missing_credential":
 			if venum.Thorough() {
@@ -706,6 +730,9 @@ func TestVerif_C22(t *testing.T) {
 		// setup for request 2 is done by an accepted ANONYMOUS caller, so a
 		// "falls back to anonymous" defect can open the tokens it mints
 		e.caller = "anon"
+		if kind.withCtx {
+			e.caller = "intro" // the identity the rejecting authenticator hands back with its error
+		}
 		if second.setup != nil {
 			if err := second.setup(e); err != nil {
 				venum.EngineError("C22 history: setup of second route %q: %v", second.name, err)
